@@ -429,6 +429,15 @@ def cases(tier, rng):
         for kind in ("ts", "tags"):
             for a, b in itertools.product(bounds, bounds):
                 yield {"stream": "small-scope", "op": "get", "kind": kind, "ts": g, "windows": [[a, b]], "via": ["slice"]}
+    # time series that is NOT stored chronologically (e.g. the result of downsampled_over with unordered ranges):
+    # explicit integer windows only, for which "exactly the samples with start <= t < stop, in the original order"
+    # does not depend on what the channel calls its begin and end
+    for g in ([5, 3], [9, 3, 5], [3, 9, 5, 5, 1], [4, 8, 2, 6]):
+        bounds = list(range(min(g) - 1, max(g) + 3))
+        for a, b in itertools.product(bounds, bounds):
+            yield {"stream": "small-scope", "op": "get", "kind": "ts", "ts": g, "windows": [[a, b]], "via": ["slice"], "unsorted": True}
+    for a, b, c, d in itertools.product(range(0, 11, 2 if quick else 1), repeat=4):
+        yield {"stream": "small-scope", "op": "get", "kind": "ts", "ts": [3, 9, 5, 5, 1], "windows": [[a, b], [c, d]], "via": ["slice", "slice"], "unsorted": True}
     # nested small scope: two levels on one small continuous channel
     n, dt, start = 4, 3, 7
     stop = start + n * dt
@@ -487,13 +496,26 @@ def cases(tier, rng):
                 t += sub.choice([0, 1, dt, sub.randint(1, 5 * dt)])
                 ts.append(t)
             case = {"kind": kind, "ts": ts}
-        bv = boundary_values(ts, dt, sub)
+        unsorted = kind == "ts" and n > 1 and sub.chance(0.2)
+        if unsorted:
+            # two acquisitions appended / blocks out of order; windows are explicit integers (see small scope)
+            k = sub.randint(1, n - 1)
+            if sub.chance(0.5):
+                ts = ts[k:] + ts[:k]
+            else:
+                ts = list(ts)
+                sub.shuffle(ts)
+            case = {"kind": "ts", "ts": ts, "unsorted": True}
+            srt = sorted(ts)
+            bv = boundary_values(srt, dt, sub)
+        else:
+            bv = boundary_values(ts, dt, sub)
         levels = sub.choice([1, 1, 2, 3])
         windows, via = [], []
         for _ in range(levels):
             w = []
             for _ in range(2):
-                c = sub.randint(0, 9)
+                c = sub.randint(2 if unsorted else 0, 9)
                 if c == 0:
                     w.append(None)
                 elif c == 1:
@@ -502,7 +524,7 @@ def cases(tier, rng):
                 elif c <= 7:
                     w.append(sub.choice(bv))
                 else:
-                    w.append(sub.randint(ts[0] - 3 * dt, ts[-1] + 3 * dt))
+                    w.append(sub.randint(min(ts) - 3 * dt, max(ts) + 3 * dt))
             windows.append(w)
             has_none_or_str = any(x is None or isinstance(x, dict) for x in w)
             via.append(sub.choice(["slice", "slice", "obj", "marker", "calib"]))
